@@ -251,8 +251,21 @@ def disconnect (m : Sim) : Sim :=
     { m with connected := false, st := settle { m.st with leaving := true, leaveQueued := true } }
   else m
 
+/-- `n` commands with a long time-out issued back to back (tags y<burst><i>) -/
+def burst (m : Sim) (k n : Nat) : Sim :=
+  (List.range n).foldl (fun (m : Sim) i =>
+    let r := m.st.created
+    { m with calls := m.calls ++ [(s!"y{k}{i + 1}", r, false)],
+             st := settle { m.st with created := r + 1, place := upd m.st.place r .ops } }) m
+
 def stepTok (m : Sim) (tok : String) : Sim :=
-  if tok = "J" then connect m
+  if tok = "J" || tok = "J0" then connect m
+  else if tok.startsWith "B" || tok.startsWith "b" then
+    match ((tok.drop 1).toString).toNat? with
+    | some n =>
+      let k := (m.calls.filter (fun c => c.1.startsWith "y" && c.1.endsWith "1")).length + 1
+      burst m k n
+    | none => m
   else if tok = "X" then disconnect m
   else if tok = "T" then
     -- every short-timeout command still recorded times out
@@ -292,10 +305,13 @@ def run (script : String) : String :=
   let hb := (toks.filter (· = "H")).length
   -- heartbeats are only sent (and answered) while a terminal is connected
   let hbLive := (toks.foldl (fun (acc : Nat × Bool) t =>
-      if t = "J" then (acc.1, true) else if t = "X" then (acc.1, false)
+      if t = "J" || t = "J0" then (acc.1, true) else if t = "X" then (acc.1, false)
       else if t = "H" && acc.2 then (acc.1 + 1, acc.2) else acc) (0, false)).1
   let _ := hb
-  s!"{" ".intercalate sorted} hb={hbLive}/{hbLive}"
+  -- awaited bursts (`B<n>`): every command for an online terminal reaches it
+  let bw : Nat := (toks.filterMap fun t => if t.startsWith "B" then ((t.drop 1).toString).toNat? else none).foldl (· + ·) 0
+  let bs := if bw > 0 then s!" burst={bw}/{bw}" else ""
+  s!"{" ".intercalate sorted} hb={hbLive}/{hbLive}{bs}"
 end ActSim
 
 /-! ### registry scenarios over `JT.Reg` -/
